@@ -190,7 +190,9 @@ func (s *snapshotSink) done(err error) (snapshotMeta, error) {
 	}
 	s.meta.size = info.Size()
 
-	file := filepath.Join(s.snaps.dir, "meta.tmp")
+	// note: temp file is specific to this snapshot. snapshot taken by us and
+	// snapshot installed by leader can be completed at the same time
+	file := metaFile(s.snaps.dir, s.meta.index) + ".tmp"
 	temp, err := os.OpenFile(file, os.O_WRONLY|os.O_CREATE|os.O_TRUNC, 0600)
 	if err != nil {
 		return s.meta, err
